@@ -30,7 +30,7 @@ RULE = ('Dispatch: EVERY operation sequence of depth <= D over a 23-operation al
 RULE += ' Round 5: every second sender filter is a temporary object that only the registration refers to.'
 EXHAUSTIVE = {'quick': True, 'thorough': True}
 EXHAUSTIVE_SCOPE = {'quick': 'dispatch depth 4 (23 ops), progress depth 4 (15 ops)',
-                    'thorough': 'dispatch depth 5, progress depth 6'}
+                    'thorough': 'dispatch depth 5, progress depth 6'}   # quick adds every progress history of 4 value/maximum updates + 1 operation
 FLOORS = {'quick': {'evaluations': 200000, 'distinct_nontrivial': 20000},
           'thorough': {'evaluations': 3000000, 'distinct_nontrivial': 300000}}
 ASSUMPTIONS = ['the callbacks due from an emit are those registered when the emit is issued: a connect / unconnect made by a callback during the dispatch counts from the next emit on (an emit that changes the registry has no other well-defined "currently registered" set)',
@@ -312,6 +312,15 @@ def run_shard(desc, ctx):
             idx += 1
             if idx % ns == sh:
                 run_case({'kind': 'progress', 'ops': [PROG_OPS[i] for i in seq]}, ctx)
+    # longer progress histories: four value / maximum updates followed by any operation (completion, value below the
+    # maximum, maximum lowered, ... need five steps)
+    if desc['P'] < 5:
+        setters = [o for o in PROG_OPS if o[0] in ('value', 'max')]
+        for seq in itertools.product(range(len(setters)), repeat=4):
+            for last in PROG_OPS:
+                idx += 1
+                if idx % ns == sh:
+                    run_case({'kind': 'progress', 'ops': [setters[i] for i in seq] + [last]}, ctx)
 
 
 def random_ops(rng):
